@@ -172,7 +172,12 @@ void Server::Impl::onTcpReceived(const TcpServer::ConnToken &ct, Buffer &buff)
                 conn->close_index = conn->req_index;
                 LogDbg("mark close at %d", conn->close_index);
 
-                tcp_server_.shutdown(ct, SHUT_RD);
+                /**
+                 * 注意：这里不能 shutdown(SHUT_RD)。
+                 * 否则 socket 会立即变为可读并读到 0 字节，连接会被当作对端关闭而提前释放，
+                 * 导致还未完成的回复（比如异步处理的请求）发不出去，或大的回复被截断。
+                 * 之后再收到的数据会在本函数开头被直接丢弃；连接在最后一个回复发送完成后断开。
+                 */
             }
 
             auto sp_ctx = make_shared<Context>(wp_parent_, ct, conn->req_index++, req);
